@@ -2,3 +2,35 @@
 From QuillGen Require SrcFacts.
 Lemma src_be_report_before_ctx_removal : SrcFacts.be_report_before_ctx_removal = true.
 Proof. vm_compute. reflexivity. Qed.
+
+(* T-src tie for the count clause at micro-step granularity (Backend/FailCounter.v): the flags of the
+   model are the booleans tools/srcfacts.py reads from ThreadContextManager.h on every run:
+   increment_failure_counter is ONE atomic read-modify-write of _failure_counter by 1,
+   get_and_reset_failure_counter is ONE atomic exchange(0) of it (after a load == 0 early return or
+   not: tcm_failc_reset_guarded, the theorem holds for both), and _failure_counter is a std::atomic. *)
+From Coq Require Import List NArith.
+From Quill Require Import Backend.FailCounter Backend.FailCounterProofs.
+Local Open Scope N_scope.
+Lemma src_tcm_failc_inc_atomic : SrcFacts.tcm_failc_inc_atomic = true.
+Proof. vm_compute. reflexivity. Qed.
+Lemma src_tcm_failc_reset_atomic : SrcFacts.tcm_failc_reset_atomic = true.
+Proof. vm_compute. reflexivity. Qed.
+Definition fc_src_flags : fc_flags :=
+  {| inc_atomic := SrcFacts.tcm_failc_inc_atomic;
+     reset_guarded := SrcFacts.tcm_failc_reset_guarded;
+     reset_atomic := SrcFacts.tcm_failc_reset_atomic |}.
+(* the protocol as it is in the source now is exact for every schedule *)
+Lemma fc_exact_src : forall ops,
+  let s := fc_run fc_src_flags fc0 ops in
+  rep s + ctr s = disc s /\ nsum (rets s) = rep s /\
+  (let d := fc_run fc_src_flags s (get_and_reset_call fc_src_flags) in
+   ctr d = 0 /\ disc d = disc s /\ nsum (rets d) = disc s).
+Proof.
+  intro ops. apply fc_exact_flags; [exact src_tcm_failc_inc_atomic|exact src_tcm_failc_reset_atomic].
+Qed.
+(* and it is a run of the atomic machine, the granularity of M-BE's counter steps *)
+Lemma fc_refines_atomic_src : forall ops, exists aops, a_run afc0 aops = abs (fc_run fc_src_flags fc0 ops).
+Proof.
+  intro ops. unfold fc_src_flags. rewrite src_tcm_failc_inc_atomic, src_tcm_failc_reset_atomic.
+  exact (fc_refines_atomic SrcFacts.tcm_failc_reset_guarded ops).
+Qed.
